@@ -39,6 +39,29 @@ def lin(prog, t, sym=None):
         return {sym(t): 1}
     if k == "call" and re.search(r"::(saturating_add|checked_add|wrapping_add)$", t.a) and len(t.sub) == 2:
         return _add(lin(prog, t.sub[0], sym), lin(prog, t.sub[1], sym), 1)
+    if k == "call" and re.search(r"::(saturating_sub|checked_sub|wrapping_sub)$", t.a) and len(t.sub) == 2:
+        return _add(lin(prog, t.sub[0], sym), lin(prog, t.sub[1], sym), -1)
+    if k == "call" and re.search(r"::(saturating_mul|checked_mul|wrapping_mul)$", t.a) and len(t.sub) == 2:
+        a, b = lin(prog, t.sub[0], sym), lin(prog, t.sub[1], sym)
+        if a is not None and set(a) <= {1}:
+            return {s_: c * a.get(1, 0) for s_, c in (b or {}).items()}
+        if b is not None and set(b) <= {1}:
+            return {s_: c * b.get(1, 0) for s_, c in (a or {}).items()}
+    if k == "call" and re.search(r"(TryFrom<\w+> for \w+>::try_from|convert::TryInto<.*>>::try_into|convert::TryFrom<.*>>::try_from)$", t.a) and t.sub:
+        return lin(prog, t.sub[0], sym)
+    if k == "call" and re.search(r"Option::and_then$", t.a) and len(t.sub) == 2 and t.sub[1].kind == "aggr" and t.sub[1].a.startswith("closure:"):
+        # apply a closure of the form |i| <linear in i>
+        clo = prog.fn(t.sub[1].a[len("closure:"):])
+        if clo is not None:
+            inner = lin(prog, prog.prov(clo).of_local(0), lambda x: "$arg" if (x.kind == "param" and x.a != "<env>") else M.render(x))
+            outer = lin(prog, t.sub[0], sym)
+            if inner is not None and outer is not None and set(inner) <= {1, "$arg"}:
+                c = inner.get("$arg", 0)
+                res = {s_: v * c for s_, v in outer.items()}
+                res[1] = res.get(1, 0) + inner.get(1, 0)
+                return {s_: v for s_, v in res.items() if v != 0 or s_ == 1}
+    if k == "call" and re.search(r"Option::(ok_or|ok_or_else)$|Result::(map_err|ok)$", t.a) and t.sub:
+        return lin(prog, t.sub[0], sym)
     if k == "try":
         return lin(prog, t.sub[0], sym)
     if k == "call" and re.search(r"convert::(Into|From)<.*>>::(into|from)$|::from$|::into$", t.a) and t.sub:
